@@ -53,6 +53,113 @@ def abs_arg(e):
     return None
 
 
+def _table(dm, dflow, arg):
+    """A table handed to find_stable_matching -> {key, group, value, iter, node} or None.
+    Read: `T = {}` + `for k, g in GROUPS: ... T[k] = V`, and `{k: V for k, g in GROUPS}` (bound to a name or not)."""
+    e = arg
+    if isinstance(e, ast.Name):
+        stores = [n for n in ast.walk(dm.node) if isinstance(n, ast.Assign) and isinstance(n.targets[0], ast.Subscript)
+                  and isinstance(n.targets[0].value, ast.Name) and n.targets[0].value.id == e.id]
+        if len(stores) == 1 and isinstance(stores[0].targets[0].slice, ast.Name):
+            st = stores[0]
+            loop = getattr(st, "parent", None)
+            while loop is not None and not isinstance(loop, (ast.For, ast.FunctionDef)):
+                loop = getattr(loop, "parent", None)
+            if isinstance(loop, ast.For) and isinstance(loop.target, ast.Tuple) and len(loop.target.elts) == 2 \
+                    and all(isinstance(t, ast.Name) for t in loop.target.elts) and loop.target.elts[0].id == st.targets[0].slice.id:
+                return {"key": loop.target.elts[0].id, "group": loop.target.elts[1].id, "value": st.value, "iter": loop.iter, "node": st}
+            return None
+        if stores:
+            return None
+        e = dflow.def_value(e)
+    if isinstance(e, ast.DictComp) and len(e.generators) == 1 and not e.generators[0].ifs:
+        g = e.generators[0]
+        if isinstance(g.target, ast.Tuple) and len(g.target.elts) == 2 and all(isinstance(t, ast.Name) for t in g.target.elts) \
+                and isinstance(e.key, ast.Name) and e.key.id == g.target.elts[0].id:
+            return {"key": g.target.elts[0].id, "group": g.target.elts[1].id, "value": e.value, "iter": g.iter, "node": e}
+    return None
+
+
+def _key_index(k):
+    """itemgetter(i) / lambda p: p[i] -> i."""
+    if isinstance(k, ast.Call) and (dotted_name(k.func) or "").split(".")[-1] == "itemgetter" and len(k.args) == 1 \
+            and isinstance(k.args[0], ast.Constant) and isinstance(k.args[0].value, int):
+        return k.args[0].value
+    if isinstance(k, ast.Lambda) and len(k.args.args) == 1 and isinstance(k.body, ast.Subscript) and isinstance(k.body.value, ast.Name) \
+            and k.body.value.id == k.args.args[0].arg and isinstance(k.body.slice, ast.Constant) and isinstance(k.body.slice.value, int):
+        return k.body.slice.value
+    return None
+
+
+def _grouping_obligation(ctx, chk, dm, dflow, tab, which):
+    """C02.O7: the groups a table is built from hold *every* pair of the candidate relation with that key."""
+    it = tab["iter"]
+    where = where_of(dm, tab["node"])
+    req = "every (storm, rise) pair of the candidate relation is in the group of its storm and in the group of its rise, whatever order the pairs arrive in"
+    why = "a pair missing from a table is never proposed (or cannot be compared): the overlapping storm and rise can form a blocking pair"
+    while isinstance(it, ast.Call) and isinstance(it.func, ast.Name) and it.func.id in ("list", "tuple") and len(it.args) == 1:
+        it = it.args[0]
+    # (a) a dictionary of lists: GROUPS.items()
+    if isinstance(it, ast.Call) and isinstance(it.func, ast.Attribute) and it.func.attr == "items" and isinstance(it.func.value, ast.Name) and not it.args:
+        gname = it.func.value.id
+        fills = []
+        for c in ast.walk(dm.node):
+            if isinstance(c, ast.Call) and isinstance(c.func, ast.Attribute) and c.func.attr == "append" and len(c.args) == 1:
+                recv = c.func.value
+                if isinstance(recv, ast.Subscript) and isinstance(recv.value, ast.Name) and recv.value.id == gname:
+                    fills.append(c)
+                elif isinstance(recv, ast.Call) and isinstance(recv.func, ast.Attribute) and recv.func.attr == "setdefault" \
+                        and isinstance(recv.func.value, ast.Name) and recv.func.value.id == gname:
+                    fills.append(c)
+        other = [n for n in ast.walk(dm.node) if isinstance(n, (ast.Assign, ast.AugAssign, ast.Delete))
+                 and any(isinstance(t, ast.Subscript) and isinstance(t.value, ast.Name) and t.value.id == gname
+                         for t in (n.targets if isinstance(n, (ast.Assign, ast.Delete)) else [n.target]))]
+        if len(fills) != 1 or other:
+            chk.indeterminate("C02.O7", where, "how the groups %s of the %s table are filled is not read (%d append sites, %d other stores)" % (gname, which, len(fills), len(other)))
+            return
+        st = fills[0]
+        while st is not None and not isinstance(st, ast.stmt):
+            st = getattr(st, "parent", None)
+        loop = getattr(st, "parent", None)
+        if not isinstance(loop, ast.For) or st not in loop.body:
+            chk.indeterminate("C02.O7", where, "the append into %s is not directly in a loop over the candidate pairs" % gname)
+            return
+        escapes = [x for x in ast.walk(loop) if isinstance(x, (ast.Break, ast.Continue))]
+        if escapes:
+            chk.indeterminate("C02.O7", where, "the loop filling %s has break / continue" % gname)
+            return
+        chk.ob("C02.O7", True, where, "%s table built from %s, filled unconditionally once per candidate pair (line %d)" % (which, gname, st.lineno), req,
+               key="disambiguate_matching|%s-groups" % which, why=why)
+        return
+    # (b) itertools.groupby(REL, key=K): groups only ADJACENT pairs
+    if isinstance(it, ast.Call) and (dotted_name(it.func) or "").split(".")[-1] == "groupby" and it.args:
+        rel = it.args[0]
+        key = it.args[1] if len(it.args) > 1 else next((k.value for k in it.keywords if k.arg == "key"), None)
+        ki = _key_index(key) if key is not None else None
+        relv = dflow.def_value(rel) if isinstance(rel, ast.Name) else rel
+        sorted_by = None
+        if isinstance(relv, ast.Call) and isinstance(relv.func, ast.Name) and relv.func.id == "sorted" and relv.args:
+            sk = next((k.value for k in relv.keywords if k.arg == "key"), None)
+            if sk is None:
+                sorted_by = 0            # tuples sort by their first element first
+            else:
+                sorted_by = _key_index(sk)
+                if sorted_by is None and key is not None and ast.dump(sk) == ast.dump(key):
+                    sorted_by = ki = -1
+            if any(k.arg not in ("key", "reverse") for k in relv.keywords):
+                sorted_by = None
+        if key is None or ki is None:
+            chk.indeterminate("C02.O7", where, "groupby key %s is not an element selector" % (ast.unparse(key)[:40] if key is not None else "(none)"))
+            return
+        ok = sorted_by is not None and sorted_by == ki
+        chk.ob("C02.O7", ok, where,
+               "%s table built from groupby(%s, key = element %s), which groups only adjacent pairs; the sequence is %s" % (
+                   which, ast.unparse(rel)[:40], ki, ("sorted by element %s just before" % sorted_by) if sorted_by is not None else "not sorted by that key in this function"),
+               req, key="disambiguate_matching|%s-groups" % which, why=why + "; with groupby over an unsorted sequence a storm whose pairs are not adjacent keeps only its last run of pairs")
+        return
+    chk.indeterminate("C02.O7", where, "the groups %s of the %s table are not a dictionary of lists or a groupby" % (ast.unparse(it)[:50], which))
+
+
 def run(ctx, chk, tier="quick"):
     chk.explanation = (
         "Conformance of disambiguate_matching / find_stable_matching to the deferred-acceptance "
@@ -79,25 +186,21 @@ def run(ctx, chk, tier="quick"):
         return
     call = calls[0]
     a_cand, a_pref = call.args[:2]
-    if not (isinstance(a_cand, ast.Name) and isinstance(a_pref, ast.Name)):
-        chk.indeterminate("C02.O1", where_of(dm, call), "arguments are not simple names")
+    # ---- the two tables: TABLE[key] = value for (key, group) in GROUPS   (store loop or dict comprehension)
+    ctab, ptab = _table(dm, dflow, a_cand), _table(dm, dflow, a_pref)
+    if ctab is None or ptab is None:
+        chk.indeterminate("C02.O1", where_of(dm, call), "the %s table is neither filled by one store `T[key] = value` in a loop over groups nor a dict comprehension over groups"
+                          % ("candidate" if ctab is None else "preference"))
         return
 
-    # ---- storm side: stores CANDS[storm] = sorted(...)
-    def stores_into(name):
-        out = []
-        for n in ast.walk(dm.node):
-            if isinstance(n, ast.Assign) and isinstance(n.targets[0], ast.Subscript) and isinstance(n.targets[0].value, ast.Name) \
-                    and n.targets[0].value.id == name:
-                out.append(n)
-        return out
-
-    cstores = stores_into(a_cand.id)
-    pstores = stores_into(a_pref.id)
-    if len(cstores) != 1 or len(pstores) != 1:
-        chk.indeterminate("C02.O1", where_of(dm, dm.node), "expected one store into the candidate dict and one into the preference dict")
-        return
-    cst, pst = cstores[0], pstores[0]
+    class _Site:           # what the rules below read off a table: its value expression and where it is
+        def __init__(self, tab):
+            self.value = tab["value"]
+            self.lineno = getattr(tab["node"], "lineno", 0)
+            self.key = tab["key"]
+    cst, pst = _Site(ctab), _Site(ptab)
+    _grouping_obligation(ctx, chk, dm, dflow, ctab, "candidate")
+    _grouping_obligation(ctx, chk, dm, dflow, ptab, "preference")
     cval = dflow.expand(cst.value, keep=set())
     # direction of the ordering
     direction = 1
@@ -254,7 +357,7 @@ def run(ctx, chk, tier="quick"):
                     op_ = py_poly(oexpr)
                     atoms = sorted(op_.atoms())
                     # difference of two start indices, one being the dict key of the outer store, the other the comp variable
-                    jkey = pst.targets[0].slice.id if isinstance(pst.targets[0].slice, ast.Name) else None
+                    jkey = pst.key
                     off_ok = len(atoms) == 2 and jkey in atoms and \
                         (op_ == Poly.atom(atoms[0]) - Poly.atom(atoms[1]) or op_ == Poly.atom(atoms[1]) - Poly.atom(atoms[0]))
                     pdesc = "%s|%s|" % ("-" if psign < 0 else "+", op_.key())
